@@ -3,6 +3,6 @@ CONSTANTS
   Inputs = {}
   Log <- LogLast
 CONSTRAINT HighWater
-INVARIANTS Inv_C35_SumIsTotalToDistribute Inv_C35_PositiveRewards Inv_C35_ProtocolNonNegative Inv_C35_SupportedDestinations Inv_C35_RightMiniblock Inv_C35_OneRewardPerAddress
+INVARIANTS Inv_C35_SumIsTotalToDistribute Inv_C35_PositiveRewards Inv_C35_ProtocolNonNegative Inv_C35_SupportedDestinations Inv_C35_RightMiniblock Inv_C35_OneRewardPerAddress Inv_C35_PublishedFiguresAddUp
 POSTCONDITION Accepted
 CHECK_DEADLOCK FALSE
